@@ -232,3 +232,26 @@ define i32 @f(%arrptr %p, %ip %q, %fnp %h) {
   call void %h(i32 %w)
   ret i32 %v
 }
+;;; ATOM types/named-pointer-constants
+%T = type i32*
+@g = global i32 0
+@a = global [2 x i32*] [%T @g, i32* @g]
+@b = global { %T, i32* } { i32* @g, %T @g }
+@c = global i1 icmp eq (%T @g, i32* null)
+@d = global %T getelementptr (i32, %T @g, i64 1)
+@e = global i32* select (i1 true, %T @g, i32* null)
+define %T @f(i1 %c, %T %p, i32* %q) {
+  br i1 %c, label %x, label %y
+x:
+  br label %y
+y:
+  %r = phi i32* [ %p, %x ], [ %q, %0 ]
+  %s = select i1 %c, %T %p, i32* %q
+  ret i32* %s
+}
+;;; ATOM types/named-pointer-store-value
+%T = type i32*
+define void @f(%T %p, i32** %pp) {
+  store %T %p, i32** %pp
+  ret void
+}
